@@ -361,6 +361,78 @@ Section Tie.
   Lemma PWrap_init_src f pattern mn mx :
     construct f CWrap [pattern; AV mn; AV mx] = src_PWrap_init (reset f) value f pattern mn mx.
   Proof. reflexivity. Qed.
+  (** PSequence: `sequence = Pattern.value(self.sequence)` is the list held by the attribute (a list literal in the
+      model); `Pattern.value(sequence[self.pos])` runs the element and puts its new state back *)
+  Lemma zlen_update_nth {A} (n : nat) (x : A) : forall l, zlen (update_nth n x l) = zlen l.
+  Proof.
+    unfold zlen. intro l. f_equal. revert n. induction l as [|y l IH]; intros [|n]; cbn [update_nth List.length]; auto.
+  Qed.
+  Lemma PSequence_next_src f sequence repeats rcount pos :
+    step (S f) (PSequence sequence repeats rcount pos) = src_PSequence_next Val.binop value anext f sequence repeats rcount pos.
+  Proof. open_ src_PSequence_next. rewrite ?zlen_update_nth. tie; rewrite ?zlen_update_nth in *; congruence. Qed.
+  Lemma PSequence_reset_src f sequence repeats rcount pos :
+    reset (S f) (PSequence sequence repeats rcount pos) = src_PSequence_reset (reset f) value f sequence repeats rcount pos.
+  Proof. reflexivity. Qed.
+
+  (** PSubsequence: `while len(self.values) <= self.pos + offset: self.values.append(next(self.pattern))`, then
+      `self.values[offset + self.pos]`.  Step.v's clause converts the offset to an int before the loop (helper
+      [pull_until], the child at the constant fuel f), answers TypeError for a rest and declines ([Inexact]) for any
+      other non-int offset; the source does arithmetic on the offset as it is.  The two agree whenever the offset is an
+      int, a bool or a rest - stated as a hypothesis on what Pattern.value(self.offset) returns. *)
+  Definition index_like (v : val) : Prop := match int_of v with Some _ => True | None => v = VNone end.
+
+  Lemma add_int_of p v z : int_of v = Some z ->
+    Val.binop OAdd (VInt p) v = Yield (VInt (p + z)) /\ Val.binop OAdd v (VInt p) = Yield (VInt (z + p)).
+  Proof.
+    destruct v; try discriminate; cbn [int_of]; intro H; injection H as <-;
+      unfold Val.binop, num_of; cbn [orb]; rewrite !Qround.Qfloor_Z; split; reflexivity.
+  Qed.
+  Lemma cmpb_le_int a b : omap truthy (Val.binop OLe (VInt a) (VInt b)) = Yield (a <=? b).
+  Proof. unfold Val.binop, num_of. cbn [orb]. rewrite !Qround.Qfloor_Z. reflexivity. Qed.
+
+  Lemma PSubsequence_loop_src f fuel lfuel n : forall pattern offset length pos values voff vlen off,
+    int_of voff = Some off ->
+    src_PSubsequence_next_loop1 Val.binop value (fun _ => anext f) fuel lfuel n pattern offset length pos values voff vlen =
+    (let '(ou, values', pattern') := pull_until (anext f) n pattern values (pos + off) in
+     match ou with
+     | Yield _ =>
+         match py_index values' (off + pos) with
+         | Some v => (Yield v, PSubsequence pattern' offset length (pos + 1) values')
+         | None => (Raise IndexError, PSubsequence pattern' offset length pos values')
+         end
+     | _ => (ocast ou, PSubsequence pattern' offset length pos values')
+     end).
+  Proof.
+    induction n as [|n IH]; intros pattern offset length pos values voff vlen off Hoff;
+      destruct (add_int_of pos voff off Hoff) as [E1 E2];
+      cbn [src_PSubsequence_next_loop1 pull_until]; rewrite E1, E2, cmpb_le_int; unfold zlen; cbn [int_of];
+      destruct (Z.of_nat (List.length values) <=? pos + off); try reflexivity.
+    destruct (Step.anext binop LMAX f pattern) as [o pattern']. destruct o; try reflexivity.
+    rewrite (IH _ _ _ _ _ _ _ _ Hoff). reflexivity.
+  Qed.
+
+  Lemma PSubsequence_next_src f pattern offset length pos values :
+    (forall v a, value f offset = (Yield v, a) -> index_like v) ->
+    step (S f) (PSubsequence pattern offset length pos values) =
+    src_PSubsequence_next Val.binop value (fun _ => anext f) f f pattern offset length pos values.
+  Proof.
+    intro H. open_ src_PSubsequence_next.
+    destruct (Step.value binop LMAX f offset) as [oo offset'] eqn:E. destruct oo as [voff| | | |]; try reflexivity.
+    specialize (H _ _ eq_refl). unfold index_like in H.
+    destruct (Step.value binop LMAX f length) as [ol length']. destruct ol as [vlen| | | |]; try reflexivity.
+    unfold cmp. destruct (omap truthy (Val.binop OGe (VInt pos) vlen)) as [[|]| | | |]; try reflexivity.
+    destruct (int_of voff) as [off|] eqn:Eo.
+    - rewrite (PSubsequence_loop_src _ _ _ _ _ _ _ _ _ _ _ _ Eo). reflexivity.
+    - subst voff. destruct f; reflexivity.
+  Qed.
+  Lemma PSubsequence_reset_src f pattern offset length pos values :
+    reset (S f) (PSubsequence pattern offset length pos values) =
+    src_PSubsequence_reset (reset f) value f pattern offset length pos values.
+  Proof. reflexivity. Qed.
+  Lemma PSubsequence_init_src f pattern offset length :
+    construct f CSubsequence [pattern; offset; length] = src_PSubsequence_init (reset f) value f pattern offset length.
+  Proof. reflexivity. Qed.
+
   (** * One call of __next__ / reset() as the source text defines it *)
 
   (* the translated body of the object's class applied to its fields; the children are run by the engine.  Classes the
@@ -393,6 +465,7 @@ Section Tie.
             | OLe => src_PLessThanOrEqual_next
             end binop value anext f a b
         | PAnd a b => src_PAnd_next Val.binop value anext f a b
+        | PSequence sequence repeats rcount pos => src_PSequence_next Val.binop value anext f sequence repeats rcount pos
         | PSeries start v stp length count => src_PSeries_next Val.binop value anext f start v stp length count
         | PRange start e stp v => src_PRange_next Val.binop value anext f start e stp v
         | PGeom start v m length count => src_PGeom_next Val.binop value anext f start v m length count
@@ -442,6 +515,7 @@ Section Tie.
       | src_PDiff_next => apply PDiff_next_src
       | src_PSkipIf_next => apply PSkipIf_next_src
       | src_PWrap_next => apply PWrap_next_src
+      | src_PSequence_next => apply PSequence_next_src
       | src_PAdd_next => apply PAdd_next_src
       | src_PSub_next => apply PSub_next_src
       | src_PMul_next => apply PMul_next_src
@@ -490,6 +564,7 @@ Section Tie.
             | OLe => src_PLessThanOrEqual_reset
             end (reset f) value f a b
         | PAnd a b => src_PAnd_reset (reset f) value f a b
+        | PSequence sequence repeats rcount pos => src_PSequence_reset (reset f) value f sequence repeats rcount pos
         | PSeries start v stp length count => src_PSeries_reset (reset f) value f start v stp length count
         | PRange start e stp v => src_PRange_reset (reset f) value f start e stp v
         | PGeom start v m length count => src_PGeom_reset (reset f) value f start v m length count
@@ -501,6 +576,8 @@ Section Tie.
             src_PPadToMultiple_reset (reset f) value f pattern multiple minimum_pad count padcount
         | PLoop pattern count pos loop_index read_all values =>
             src_PLoop_reset (reset f) value f pattern count pos loop_index read_all values
+        | PSubsequence pattern offset length pos values =>
+            src_PSubsequence_reset (reset f) value f pattern offset length pos values
         | PCollapse input => src_PCollapse_reset (reset f) value f input
         | PNoRepeats input v => src_PNoRepeats_reset (reset f) value f input v
         | PChanged source current => src_PChanged_reset (reset f) value f source current
